@@ -54,6 +54,24 @@ def _module_bindings(mod):
     return out
 
 
+def _stateful_instance(p, val):
+    """(class name, methods other than __init__ that store into / mutate attributes of self) when val constructs a class of the port"""
+    if not isinstance(val, ast.Call):
+        return None
+    nm = (dotted(val.func) or '').split('.')[-1]
+    cands = [c for k, c in p.classes.items() if k.split(':')[1] == nm]
+    if not cands:
+        return None
+    meths = set()
+    for mth in [x for x in cands[0].body if isinstance(x, ast.FunctionDef) and x.name != '__init__']:
+        for n in walk_no_nested(mth):
+            if isinstance(n, (ast.Attribute, ast.Subscript)) and isinstance(n.ctx, (ast.Store, ast.Del)) and (dotted(n) or dotted(getattr(n, 'value', None)) or '').startswith('self'):
+                meths.add(mth.name)
+            if isinstance(n, ast.Call) and isinstance(n.func, ast.Attribute) and n.func.attr in MUTATORS and (dotted(n.func.value) or '').startswith('self.'):
+                meths.add(mth.name)
+    return nm, meths
+
+
 def rule_gs_modstate(cx, rep, port='py'):
     p = cx.py
     n_bind = 0
@@ -66,6 +84,15 @@ def rule_gs_modstate(cx, rep, port='py'):
             mv = _is_mutable_value(val)
             if mv is True:
                 mutable[name] = st
+            elif mv is None and _stateful_instance(p, val) is not None:
+                cls_name, meths = _stateful_instance(p, val)
+                users = [fd for fd in p.all_funcs(PY_LIBRARY_MODULES) if any(isinstance(x, ast.Name) and x.id == name and isinstance(x.ctx, ast.Load) for x in ast.walk(fd))] if meths else []
+                if not meths:
+                    rep.holds('{}.{}'.format(m, name), st, 'instance of {} whose methods never change it after construction'.format(cls_name))
+                elif users:
+                    rep.violated('{}.{}'.format(m, name), st, 'module-level instance `{}` of {} is used by {}(): its method(s) {} change the instance, so what one query (or thread) did to it decides how the next one behaves'.format(name, cls_name, users[0].name, ', '.join(sorted(meths))))
+                else:
+                    rep.holds('{}.{}'.format(m, name), st, 'stateful instance that no function uses')
             elif mv is None:
                 rep.undecided('{}.{}'.format(m, name), st, 'module-level binding `{}` has a value whose mutability is not classified'.format(node_text(st)))
         # receivers of mutating operations anywhere in the module (aliases: x = G  without copy)
@@ -93,7 +120,22 @@ def rule_gs_modstate(cx, rep, port='py'):
                     if isinstance(n, ast.AugAssign) and isinstance(n.target, ast.Name) and n.target.id in aliases and not isinstance(fd, ast.Module):
                         if any(isinstance(g, ast.Global) and n.target.id in g.names for g in walk_no_nested(fd)):
                             offenders.append(n)
+            memo = None
             if offenders:
+                from ..idioms import pure_memo_store
+                consts = p.module_consts(m)
+                descs = []
+                for o in offenders:
+                    stmt = o
+                    while stmt is not None and not isinstance(stmt, (ast.stmt,)) and not (isinstance(stmt, ast.Call) and isinstance(stmt.func, ast.Attribute) and stmt.func.attr == 'set'):
+                        stmt = getattr(stmt, 'parent', None)
+                    ofd = enclosing_func(o)
+                    descs.append(pure_memo_store(ofd, stmt, name, consts) if ofd is not None and stmt is not None else None)
+                if all(descs):
+                    memo = descs[0]
+            if memo:
+                rep.holds('{}.{}'.format(m, name), st, 'module-level table filled only as a pure memo ({}): a hit returns what a miss would compute'.format(memo))
+            elif offenders:
                 rep.violated('{}.{}'.format(m, name), offenders[0], 'module-level mutable object `{}` is modified in place by `{}`: the state leaks from one query into the next and is shared between threads'.format(name, node_text(offenders[0])))
             else:
                 rep.holds('{}.{}'.format(m, name), st, 'module-level mutable value, never the receiver of a mutating operation (copies such as x[:] are fresh)')
